@@ -272,16 +272,22 @@ class World:
                 from aioesphomeapi import api_pb2
 
                 r = api_pb2.GetTimeResponse()
-                r.ParseFromString(payload)
-                if abs(int(r.epoch_seconds) - int(time.time())) > 120:
-                    name += ":wrong_time"
+                try:
+                    r.ParseFromString(payload)
+                    if abs(int(r.epoch_seconds) - int(time.time())) > 120:
+                        name += ":wrong_time"
+                except Exception:  # noqa: BLE001 (what was written does not decode: the format checks report it)
+                    name += ":undecodable"
             elif name == "ConnectRequest":
                 from aioesphomeapi import api_pb2
 
                 r = api_pb2.ConnectRequest()
-                r.ParseFromString(payload)
-                if r.password != (self.expected_password or ""):
-                    name += ":wrong_password"
+                try:
+                    r.ParseFromString(payload)
+                    if r.password != (self.expected_password or ""):
+                        name += ":wrong_password"
+                except Exception:  # noqa: BLE001
+                    name += ":undecodable"
             self.step_writes.append(name)
             self.step_frames.append((t, payload))
 
